@@ -62,11 +62,11 @@ def generate(ctx, rng):
             n += 1
             yield ("idport", did, port), {"mode": "broadcast", "auto": False,
                                           "hosts": [_host(rng, "10.1.0.%d" % (1 + n % 200), id=did, port=port)]}
-    for j in range(120 if quick else 7500):
+    for j in range(120 if quick else 37500):
         k = rng.randint(1, 4)
         hosts = [_host(rng, "10.2.%d.%d" % (j % 200, i + 1)) for i in range(k)]
         yield ("multi", j), {"mode": "broadcast", "auto": False, "hosts": hosts}
-    for j in range(120 if quick else 12500):
+    for j in range(120 if quick else 62500):
         h = _host(rng, "10.3.0.%d" % (1 + j % 200))
         yield ("single", j), {"mode": "single", "auto": False, "hosts": [h, _host(rng, "10.3.1.9")],
                               "target": [None, "midea-ac.lan", "AC-Livingroom", None][j % 4]}
@@ -110,20 +110,37 @@ def generate(ctx, rng):
             sn = "".join(rng.choice(SN_CHARS) for _ in range(32 - len(sn_tail.encode()))) + sn_tail
             yield ("utf8", j, version), {"mode": ["broadcast", "single"][j % 2], "auto": False,
                                          "hosts": [_host(rng, "10.12.0.%d" % (1 + n % 200), sn=sn, suffix=suffix, version=version, type=0xAC)]}
+    # header fields a discovery client has no business reading (message id, timestamp, the bytes around the 48-bit id) are not zero
+    for j in range(40 if quick else 6000):
+        n += 1
+        free = bytearray(rng.randbytes(26))
+        if j % 4 == 0:
+            free[12:14] = b"\x01\x00"
+        elif j % 4 == 1:
+            free[12:14] = b"\x00\x80"
+        yield ("free-fields", j), {"mode": ["broadcast", "single"][j % 2], "auto": False,
+                                   "hosts": [_host(rng, "10.14.0.%d" % (1 + n % 200), dups=1, free=bytes(free), id=rng.choice(IDS + [rng.getrandbits(48)]))]}
+    # the wall clock is stepped (NTP correction, resume from suspend) while the discovery listens; one host is slow to answer
+    for j in range(24 if quick else 3000):
+        n += 1
+        slow = _host(rng, "10.13.0.%d" % (1 + n % 200), dups=1, delay=rng.choice([1.7, 2.6, 3.9]))
+        fast = _host(rng, "10.13.1.%d" % (1 + n % 200), dups=1)
+        yield ("wallstep", j), {"mode": ["broadcast", "single"][j % 2], "auto": False, "hosts": [slow, fast] if j % 2 == 0 else [slow],
+                                "wall_steps": [[rng.choice([0.3, 0.5, 1.2]), rng.choice([3600.0, -3600.0, 86400.0 * 400, 7.0, -7.0])]]}
     # auto-connect to a device that accepts the TCP connection and never answers, with short listening windows
-    for j in range(12 if quick else 1500):
+    for j in range(12 if quick else 7500):
         h = _host(rng, "10.11.0.%d" % (1 + j % 200), version=2, type=0xAC, port=6444, dups=1)
         yield ("auto-silent", j), {"mode": ["broadcast", "single"][j % 2], "auto": True, "hosts": [h], "timeout": [1, 2, 5][j % 3], "silent_tcp": True}
     # several discoveries in flight at the same time (an application looking for its configured devices in parallel)
-    for j in range(60 if quick else 12500):
+    for j in range(60 if quick else 62500):
         k = rng.randint(2, 4)
         hosts = [_host(rng, "10.8.%d.%d" % (j % 200, i + 1), dups=1) for i in range(k)]
         yield ("overlap", j), {"mode": "overlap", "auto": False, "hosts": hosts, "starts": [rng.choice([0.0, 0.0, 0.02, 0.3, 1.0]) for _ in range(k)],
                                "also_broadcast": j % 3 == 0}
-    for j in range(80 if quick else 10000):
+    for j in range(80 if quick else 50000):
         h = _host(rng, "10.4.0.%d" % (1 + j % 200), version=2, type=rng.choice([0xAC, 0xAC, 0xA1]), port=rng.choice([6444, 7000]))
         yield ("auto", j), {"mode": rng.choice(["broadcast", "single"]), "auto": True, "hosts": [h]}
-    for j in range(150 if quick else 350000):
+    for j in range(150 if quick else 1750000):
         yield ("rnd", j), {"mode": "broadcast", "auto": False, "hosts": [_host(rng, "10.5.%d.%d" % (rng.randrange(250), rng.randrange(1, 250)))]}
 
 
@@ -140,8 +157,8 @@ def run_case(ctx, case):
     target = case.get("target")
     for i, h in enumerate(hosts):
         payload = D.build_payload(h["reported_ip"], h["port"], h["sn"].encode(), _name(h).encode(), bytes(h["tail"]))
-        reply = D.build_reply(h["version"], h["id"], payload)
-        replies = [(0.05 * (i + 1) + 0.3 * d, None, reply) for d in range(h["dups"])]
+        reply = D.build_reply(h["version"], h["id"], payload, free=bytes(h["free"]) if h.get("free") else None)
+        replies = [(0.05 * (i + 1) + 0.3 * d + h.get("delay", 0.0), None, reply) for d in range(h["dups"])]
         sims.append(SimHost(net, h["ip"], h["listen"], replies, names=([target] if (target and i == 0) else ()),
                             answer_every=case["mode"] == "overlap",      # several askers: the device answers each of them
                             lose_first=case.get("lose_first", 0)))
@@ -157,6 +174,9 @@ def run_case(ctx, case):
         kw["timeout"] = case["timeout"]
 
     async def go(loop):
+        from ..runtime import vloop
+        for at, delta in case.get("wall_steps") or ():
+            loop.call_later(at, vloop.wall_step, delta)          # the system clock is corrected while the discovery is listening
         if case["mode"] == "overlap":
             import asyncio
 
@@ -173,7 +193,7 @@ def run_case(ctx, case):
             return [dev] if dev is not None else []
         return await Discover.discover(auto_connect=case["auto"], **kw)
 
-    key = ("c17", case["mode"], case["auto"], case.get("target"), case.get("packets"), case.get("timeout"), case.get("lose_first"), case.get("silent_tcp"), tuple(case.get("starts") or ()), tuple((h["ip"], h["version"], h["id"], h["port"], h["sn"], _name(h), h["listen"]) for h in hosts))
+    key = ("c17", repr(case.get("wall_steps")), tuple(h.get("delay") for h in hosts), case["mode"], case["auto"], case.get("target"), case.get("packets"), case.get("timeout"), case.get("lose_first"), case.get("silent_tcp"), tuple(case.get("starts") or ()), tuple((h["ip"], h["version"], h["id"], h["port"], h["sn"], _name(h), h["listen"]) for h in hosts))
     try:
         devs, loop = H.run_virtual(go, net)
     except Exception as e:  # noqa: BLE001
